@@ -252,6 +252,8 @@ class Machine:
         while limit is None or k < limit:
             self.tick()
             c = self.cell(p, k).get()
+            if isinstance(c, int) and not isinstance(c, bool):
+                c = "\0" if c == 0 else chr(c & 0xFF)            # a byte written as a number (typed mode)
             if c == "\0" and limit is None:
                 break
             if not isinstance(c, str):
@@ -308,6 +310,8 @@ class Machine:
             v = self.rv(inner[-1])
             return c_convert(v, spec)
         if k == "IntegerLiteral":
+            return int(n.get("value"))
+        if k == "CharacterLiteral":
             return int(n.get("value"))
         if k == "FloatingLiteral":
             return float(n.get("value"))
@@ -483,6 +487,23 @@ class Machine:
             if isinstance(p, Ptr):
                 self.freed.append(p.arr)
             return None
+        if k == "DependentScopeDeclRefExpr" and self.header is not None:
+            # `std::numeric_limits<T>::is_integer` and its siblings (constants, not calls)
+            rg = n.get("range") or {}
+            try:
+                if getattr(self, "_src", None) is None:
+                    self._src = open(self.header.header, encoding="utf-8", errors="replace").read()
+                text = self._src[rg["begin"]["offset"]:rg["end"]["offset"] + rg["end"].get("tokLen", 0)].replace(" ", "")
+            except (KeyError, OSError):
+                raise CUnknown("dependent name")
+            import re as _re
+            m = _re.fullmatch(r"(?:std::)?numeric_limits<([\w: ]+)>::(is_integer|is_signed|is_exact|is_specialized|has_infinity|digits)", text)
+            spec = c_type(m.group(1), self.tmaps[-1]) if m else None
+            if spec is None:
+                raise CUnknown(f"dependent name {text[:40]}")
+            size, kind = spec
+            return {"is_integer": kind != "f", "is_signed": kind in ("i", "f"), "is_exact": kind != "f", "is_specialized": True, "has_infinity": kind == "f",
+                    "digits": (53 if size == 8 else 24) if kind == "f" else (1 if kind == "b" else 8 * size - (1 if kind == "i" else 0))}[m.group(2)]
         if k == "MemberExpr":
             raise CUnknown("member access")
         raise CUnknown(f"expression {k}")
@@ -512,7 +533,46 @@ class Machine:
                 return a % b
         raise CUnknown("arithmetic on array cells")
 
+    def limits_call(self, n, inner):
+        """`std::numeric_limits<T>::max()` / `lowest()` / `min()` inside a template: clang leaves the callee dependent, so the name
+        is read from the header text at the node's range and T is taken from the active call's template binding."""
+        fx = inner[0] if inner else {}
+        while isinstance(fx, dict) and fx.get("kind") in _TRANSPARENT and fx.get("inner"):
+            fx = fx["inner"][-1]
+        if fx.get("kind") != "DependentScopeDeclRefExpr" or self.header is None:
+            return None
+        rg = fx.get("range") or {}
+        try:
+            b, e_ = rg["begin"]["offset"], rg["end"]["offset"] + rg["end"].get("tokLen", 0)
+            if getattr(self, "_src", None) is None:
+                self._src = open(self.header.header, encoding="utf-8", errors="replace").read()
+            text = self._src[b:e_].replace(" ", "")
+        except (KeyError, OSError):
+            return None
+        import re as _re
+        m = _re.fullmatch(r"(?:std::)?numeric_limits<([\w: ]+)>::(max|min|lowest|infinity|epsilon)", text)
+        if not m:
+            return None
+        spec = c_type(m.group(1), self.tmaps[-1])
+        if spec is None:
+            raise CUnknown(f"numeric_limits of {m.group(1)}")
+        size, kind = spec
+        what = m.group(2)
+        if kind == "f":
+            import sys as _sys
+            big = _sys.float_info.max if size == 8 else 3.4028234663852886e+38
+            tiny = _sys.float_info.min if size == 8 else 1.1754943508222875e-38
+            return {"max": big, "lowest": -big, "min": tiny, "infinity": float("inf"), "epsilon": _sys.float_info.epsilon}[what]
+        if kind == "b":
+            return {"max": True, "lowest": False, "min": False}.get(what, False)
+        hi = (1 << (8 * size - 1)) - 1 if kind == "i" else (1 << (8 * size)) - 1
+        lo = -(1 << (8 * size - 1)) if kind == "i" else 0
+        return {"max": hi, "lowest": lo, "min": lo}.get(what, 0)
+
     def call(self, n, inner):
+        lim = self.limits_call(n, inner)
+        if lim is not None:
+            return lim
         nm = callee(n)
         args = inner[1:]
         if nm in ("error", "mexErrMsgTxt", "mexErrMsgIdAndTxt"):
@@ -586,7 +646,11 @@ class Machine:
         if nm == "mxCreateString":
             p = self.rv(args[0])
             txt = self.c_string(p)
-            a = MxArray(1 if txt else 0, len(txt), list(txt), cls="mxCHAR_CLASS")
+            if self.typed:
+                a = MxArray.numeric("mxCHAR_CLASS", [ord(c_) for c_ in txt], dims=[1 if txt else 0, len(txt)])
+                a.data = list(txt)
+            else:
+                a = MxArray(1 if txt else 0, len(txt), list(txt), cls="mxCHAR_CLASS")
             self.created.append(a)
             return a
         if nm == "mxFree":
@@ -703,7 +767,11 @@ class Machine:
                 init = [c for c in (v.get("inner") or []) if isinstance(c, dict) and c]
                 t = (v.get("type") or {}).get("qualType", "")
                 am = _ARRAY_T.match(t)
-                if am and not init:
+                if am and init and init[-1].get("kind") == "InitListExpr":
+                    cnt = int(am.group(2))
+                    vals = [self.rv(x) for x in (init[-1].get("inner") or []) if isinstance(x, dict) and x and x.get("kind") != "ImplicitValueInitExpr"]
+                    self.env[v["name"]] = self.new_buffer(cnt, (vals + [0] * cnt)[:cnt])       # missing elements are zero-initialised
+                elif am and not init:
                     self.env[v["name"]] = self.new_buffer(int(am.group(2)))
                 elif init:
                     self.env[v["name"]] = self.rv(init[-1])
